@@ -20,6 +20,20 @@ def _is_ctor_headed(t):
     return z3.is_app(t) and t.decl().kind() == z3.Z3_OP_DT_CONSTRUCTOR
 
 
+def _occurs(sub, t):
+    stack, seen = [t], set()
+    while stack:
+        e = stack.pop()
+        if e.get_id() in seen:
+            continue
+        seen.add(e.get_id())
+        if e.eq(sub):
+            return True
+        if z3.is_app(e):
+            stack.extend(e.children())
+    return False
+
+
 def _rebuild(t, args):
     k = t.decl().kind()
     if k == z3.Z3_OP_AND:
@@ -191,6 +205,40 @@ def prep_many(assumptions, goals, split_depth=0, normalizer=None):
     """-> (assumptions', goals') with spec functions unfolded."""
     assumptions = list(assumptions)
     goals = list(goals)
+    # 1b. equations  t == C(...)  of the path condition (t not constructor-headed, not occurring in the right-hand side) are used left to
+    #     right (equals for equals), so that spec functions applied to t can be unfolded by the normaliser
+    flat = []
+    for a in assumptions:
+        if z3.is_and(a):
+            flat.extend(a.children())
+        else:
+            flat.append(a)
+    assumptions = flat
+    for _ in range(3):
+        eqs = []
+        for a in assumptions:
+            if z3.is_eq(a) and a.num_args() == 2:
+                l, r = a.arg(0), a.arg(1)
+                if _is_ctor_headed(l) and not _is_ctor_headed(r):
+                    l, r = r, l
+                if _is_ctor_headed(r) and not _is_ctor_headed(l) and z3.is_app(l) and l.num_args() > 0 and not _occurs(l, r) and not any(l.eq(x) for x, _ in eqs):
+                    eqs.append((l, r))
+        if not eqs:
+            break
+        new = []
+        changed = False
+        for a in assumptions:
+            if any(z3.is_eq(a) and ((a.arg(0).eq(l) and a.arg(1).eq(r)) or (a.arg(1).eq(l) and a.arg(0).eq(r))) for l, r in eqs):
+                new.append(a)
+                continue
+            a2 = z3.substitute(a, *eqs)
+            changed = changed or not a2.eq(a)
+            new.append(a2)
+        g2 = [z3.substitute(g, *eqs) for g in goals]
+        changed = changed or any(not x.eq(y) for x, y in zip(g2, goals))
+        assumptions, goals = new, g2
+        if not changed:
+            break
     # 1. recogniser facts make their subjects constructor-headed
     for _ in range(8):
         subs = _recognizer_facts(assumptions)
@@ -211,6 +259,38 @@ def prep_many(assumptions, goals, split_depth=0, normalizer=None):
     n = normalizer or Normalizer()
     out = [n.norm(a) for a in assumptions]
     gs = [n.norm(g) for g in goals]
+    # 1c. unfolding may have made further right-hand sides constructor-headed (e.g. e == inst(C(..), m)): orient those too and normalise again
+    for _ in range(3):
+        eqs = []
+        for a in out:
+            if z3.is_eq(a) and a.num_args() == 2:
+                l, r = a.arg(0), a.arg(1)
+                if _is_ctor_headed(l) and not _is_ctor_headed(r):
+                    l, r = r, l
+                if _is_ctor_headed(r) and not _is_ctor_headed(l) and z3.is_app(l) and l.num_args() > 0 and not _occurs(l, r) and not any(l.eq(x) for x, _ in eqs):
+                    eqs.append((l, r))
+        if not eqs:
+            break
+        new, changed = [], False
+        for a in out:
+            if any(z3.is_eq(a) and ((a.arg(0).eq(l) and a.arg(1).eq(r)) or (a.arg(1).eq(l) and a.arg(0).eq(r))) for l, r in eqs):
+                new.append(a)
+                continue
+            a2 = z3.substitute(a, *eqs)
+            if not a2.eq(a):
+                changed = True
+                a2 = n.norm(a2)
+            new.append(a2)
+        g2 = []
+        for g in gs:
+            x = z3.substitute(g, *eqs)
+            if not x.eq(g):
+                changed = True
+                x = n.norm(x)
+            g2.append(x)
+        out, gs = new, g2
+        if not changed:
+            break
     # 2. optional definitional case split for stuck applications
     extra = []
     cur = out + gs
